@@ -77,6 +77,10 @@ class DatasetRef(object):
         thr = self.threshold if threshold is None else threshold
         W = self.template_full(t, unwhiten)
         amp = ptp(W, axis=0)
+        if np.isnan(amp).any():
+            # a channel that is NaN in the template has no amplitude: it is never listed and
+            # cannot be the peak
+            amp = np.where(np.isnan(amp), -np.inf, amp)
         mx = float(amp.max())
         tol = 1e-5 * max(mx, 1e-300)
         peaks = [int(i) for i in np.nonzero(amp >= mx - tol)[0]]
